@@ -18,12 +18,12 @@ import (
 )
 
 type cliFamily struct {
-	name                                                                 string
-	wOp, wReply, wJunk, wSrvReq, wCancel, wDeadline, wClose, wFeedErr    int
-	wFeedBad, wSendFault, wCbGate, wLateOp                               int
-	steps                                                                int
-	scriptOf4                                                            int // how many of 4 scenarios are reply-script scenarios
-	faultOf16                                                            int // chance (of 16) to fail an individual Send
+	name                                                              string
+	wOp, wReply, wJunk, wSrvReq, wCancel, wDeadline, wClose, wFeedErr int
+	wFeedBad, wSendFault, wCbGate, wLateOp                            int
+	steps                                                             int
+	scriptOf4                                                         int // how many of 4 scenarios are reply-script scenarios
+	faultOf16                                                         int // chance (of 16) to fail an individual Send
 }
 
 var cliFamilies = map[string]cliFamily{
